@@ -17,6 +17,7 @@ import (
 	"github.com/sarchlab/akita/v4/mem/vm"
 	"github.com/sarchlab/akita/v4/sim"
 	"github.com/sarchlab/mgpusim/v4/amd/driver"
+	"github.com/sarchlab/mgpusim/v4/amd/protocol"
 
 	ab "verifharness/akitabench"
 	"verifharness/sched"
@@ -33,6 +34,7 @@ type Scenario struct {
 	Reverse  bool     `json:"reverse"`  // tie-break order
 	Seed     int64    `json:"seed"`
 	Temp     []int    `json:"temp"` // application threads (1-based) that use the blocking API (a fresh queue per round) in one shared context
+	Two      []int    `json:"two"`  // application threads (1-based) whose commands are two-phase memory copies answered by a stub GPU
 }
 
 type runner struct {
@@ -43,9 +45,17 @@ type runner struct {
 	queues []*driver.CommandQueue // newest queue of each application thread (nil before its first creation)
 	owner  map[*driver.CommandQueue]int
 	nq     int
-	sc     Scenario
-	rng    *rand.Rand
-	rr     int
+	// stub GPU (two-phase commands)
+	gpuPort  sim.Port
+	gpuSends int             // requests the driver put into its GPU port
+	gpuTaken int             // requests the stub GPU took out of it
+	atGPU    map[int]sim.Msg // application thread -> request the GPU owes an answer for
+	atOrder  []int
+	gpuIn    int            // responses delivered and not yet read by the driver
+	reqOwner map[string]int // request id -> application thread
+	sc       Scenario
+	rng      *rand.Rand
+	rr       int
 }
 
 func kindOf(name string) string {
@@ -74,6 +84,76 @@ func (r *runner) qKey(q *driver.CommandQueue) int {
 	return 10*o + live
 }
 
+func (r *runner) isTwo(a int) bool {
+	for _, t := range r.sc.Two {
+		if t == a {
+			return true
+		}
+	}
+	return false
+}
+
+func (r *runner) gpuBusy() bool { return r.gpuSends > r.gpuTaken || len(r.atGPU) > 0 }
+
+// gpuChoices lists the steps the stub GPU can take now, as pseudo threads named "gpu". The GPU is part of the
+// simulated world: it only acts between two events of the engine (pauseLock free).
+func (r *runner) gpuChoices() []*sched.Thread {
+	if r.gpuPort == nil || !r.eng.PauseFree() {
+		return nil
+	}
+	var out []*sched.Thread
+	if r.gpuSends > r.gpuTaken {
+		out = append(out, &sched.Thread{Name: "gpu", State: sched.Parked, Point: "take"})
+	}
+	for _, a := range r.atOrder {
+		out = append(out, &sched.Thread{Name: "gpu", State: sched.Parked, Point: "answer", Key: a})
+	}
+	return out
+}
+
+// gpuStep performs one step of the stub GPU and returns the application thread it concerns.
+func (r *runner) gpuStep(t *sched.Thread) int {
+	switch t.Point {
+	case "take":
+		msg := r.gpuPort.RetrieveOutgoing()
+		if msg == nil {
+			panic("stub GPU: nothing to take")
+		}
+		r.gpuTaken++
+		owner := 0
+		if req, ok := msg.(*protocol.MemCopyH2DReq); ok && len(req.SrcBuffer) > 0 {
+			owner = int(req.SrcBuffer[0])
+		}
+		// a second request of the same owner while one is outstanding gets a distinct key so that it is visible
+		for {
+			if _, dup := r.atGPU[owner]; !dup {
+				break
+			}
+			owner += 100
+		}
+		r.atGPU[owner] = msg
+		r.atOrder = append(r.atOrder, owner)
+		return owner
+	case "answer":
+		a := t.Key.(int)
+		req := r.atGPU[a]
+		delete(r.atGPU, a)
+		for i, x := range r.atOrder {
+			if x == a {
+				r.atOrder = append(r.atOrder[:i:i], r.atOrder[i+1:]...)
+				break
+			}
+		}
+		rsp := sim.GeneralRspBuilder{}.WithSrc(req.Meta().Dst).WithDst(r.gpuPort.AsRemote()).WithOriginalReq(req).Build()
+		if r.gpuPort.Deliver(rsp) != nil {
+			panic("stub GPU: driver port refused the response")
+		}
+		r.gpuIn++
+		return a
+	}
+	panic("unknown gpu step")
+}
+
 func (r *runner) isTemp(a int) bool {
 	for _, t := range r.sc.Temp {
 		if t == a {
@@ -99,6 +179,9 @@ func (r *runner) enabled(t *sched.Thread) bool {
 		return true
 	case "returned":
 		return false
+	case "loop":
+		// while the stub GPU owes an answer the real event queue would hold the GPU's own events
+		return r.eng.PendingEvents() > 0 || !r.gpuBusy()
 	}
 	return true
 }
@@ -163,7 +246,15 @@ func (r *runner) projection() ab.Rec {
 		}
 	}
 	eq = r.qKey(eqQueue)
+	isrun := make([]bool, len(r.queues))
+	for i, q := range r.queues {
+		if q != nil {
+			isrun[i] = q.IsRunning
+		}
+	}
+	at := append([]int{}, r.atOrder...)
 	return ab.Rec{"apc": apc, "rpc": rpc, "epc": epc, "eqa": eq / 10, "eql": eq%10 == 1, "nq": r.nq, "len": lens,
+		"isrun": isrun, "gout": r.gpuSends - r.gpuTaken, "gat": at, "gin": r.gpuIn,
 		"run": r.d.VerifEngineRunning(), "ev": r.eng.PendingEvents()}
 }
 
@@ -237,8 +328,29 @@ func runScenario(rec *ab.Recorder, sc Scenario) (hang bool, steps int, err error
 		return ""
 	}
 	r.eng = sched.NewEngine(r.S)
-	r.d = driver.MakeBuilder().WithEngine(r.eng).WithLog2PageSize(12).WithPageTable(vm.NewPageTable(12)).
-		WithGlobalStorage(mem.NewStorage(8 << 30)).WithMagicMemoryCopyMiddleware().Build("Driver")
+	b := driver.MakeBuilder().WithEngine(r.eng).WithLog2PageSize(12).WithPageTable(vm.NewPageTable(12)).
+		WithGlobalStorage(mem.NewStorage(8 << 30))
+	if len(sc.Two) == 0 {
+		b = b.WithMagicMemoryCopyMiddleware()
+	}
+	r.d = b.Build("Driver")
+	r.atGPU = map[int]sim.Msg{}
+	if len(sc.Two) > 0 {
+		// two-phase commands: copies go through the DMA-path middleware to a stub GPU played by the harness
+		r.gpuPort = r.d.GetPortByName("GPU")
+		conn := ab.NewConn("StubConn")
+		conn.PlugIn(r.gpuPort)
+		conn.PlugIn(r.d.GetPortByName("MMU"))
+		r.gpuPort.AcceptHook(ab.HookFn(func(ctx sim.HookCtx) {
+			switch ctx.Pos {
+			case sim.HookPosPortMsgSend:
+				r.gpuSends++
+			case sim.HookPosPortMsgRetrieveIncoming:
+				r.gpuIn--
+			}
+		}))
+		r.d.RegisterGPU(sim.NewPort(nil, 1, 1, "StubGPU.ToDriver"), driver.DeviceProperties{CUCount: 4, DRAMSize: 1 << 30})
+	}
 	r.owner = map[*driver.CommandQueue]int{}
 	r.queues = make([]*driver.CommandQueue, sc.NA)
 	var shared *driver.Context
@@ -257,13 +369,17 @@ func runScenario(rec *ab.Recorder, sc Scenario) (hang bool, steps int, err error
 			ptrs[a] = r.d.AllocateMemory(ctx, 64)
 			continue
 		}
+		if r.isTwo(a + 1) {
+			ptrs[a] = r.d.AllocateMemory(ctx, 64)
+		}
 		q := r.d.CreateCommandQueue(ctx)
 		r.queues[a] = q
 		r.owner[q] = a + 1
 		r.nq++
 	}
 	temp := append([]int{}, sc.Temp...)
-	rec.Emit("Reset", ab.Rec{"na": sc.NA, "rounds": sc.Rounds, "per_round": sc.PerRound, "temp": temp})
+	two := append([]int{}, sc.Two...)
+	rec.Emit("Reset", ab.Rec{"na": sc.NA, "rounds": sc.Rounds, "per_round": sc.PerRound, "temp": temp, "two": two})
 	driver.VerifYield = func(point string, q *driver.CommandQueue) {
 		if q != nil {
 			if _, ok := r.owner[q]; !ok {
@@ -295,6 +411,11 @@ func runScenario(rec *ab.Recorder, sc Scenario) (hang bool, steps int, err error
 				}
 				for k := 0; k < sc.PerRound; k++ {
 					n++
+					if r.isTwo(a + 1) {
+						// the first byte names the owner so that the stub GPU can tell the requests apart
+						r.d.EnqueueMemCopyH2D(q, ptrs[a], []byte{byte(a + 1), byte(n), 0, 0})
+						continue
+					}
 					r.d.Enqueue(q, &driver.NoopCommand{ID: fmt.Sprintf("a%d-%d", a+1, n)})
 				}
 				r.d.DrainCommandQueue(q)
@@ -321,6 +442,7 @@ func runScenario(rec *ab.Recorder, sc Scenario) (hang bool, steps int, err error
 				en = append(en, t)
 			}
 		}
+		en = append(en, r.gpuChoices()...)
 		if len(en) == 0 {
 			p := r.projection()
 			blocked := []string{}
@@ -338,7 +460,12 @@ func runScenario(rec *ab.Recorder, sc Scenario) (hang bool, steps int, err error
 		name, from := t.Name, t.Point
 		kq, _ := t.Key.(*driver.CommandQueue)
 		key := r.qKey(kq) / 10
-		if err = r.S.Grant(t); err != nil {
+		if name == "gpu" {
+			key = r.gpuStep(t)
+			if err = r.S.Settle(); err != nil {
+				return
+			}
+		} else if err = r.S.Grant(t); err != nil {
 			return
 		}
 		r.S.Forget()
@@ -348,6 +475,9 @@ func runScenario(rec *ab.Recorder, sc Scenario) (hang bool, steps int, err error
 			var idx int
 			fmt.Sscanf(name, "app%d", &idx)
 			p["a"] = idx
+		}
+		if name == "gpu" {
+			p["a"] = key
 		}
 		rec.Emit("Step", p)
 	}
